@@ -134,6 +134,8 @@ def handleC19x (f : List String) : Res :=
     | some x, some o =>
       let r : Res := {}
       let r := cmp "pow2upto" (showNats (pow2UpTo x)) out r
+      let r := cmp "translated-pow2upto" (match AC.Gen.Program.bigintPow2UpTo x with
+        | some o => showInts o | none => "panic") out r
       let r := if 0 ≤ x then
           let r := specIf "pow2upto-powers" (((List.range o.length).zip o).all fun p => p.2 == 2 ^ p.1) r
           let r := specIf "pow2upto-nonempty-iff-positive" (o.isEmpty == decide (x < 1)) r
@@ -148,6 +150,8 @@ def handleC19x (f : List String) : Res :=
     | some x, some o =>
       let r : Res := {}
       let r := cmp "bitsset" (showNats (bitsSet x)) out r
+      let r := cmp "translated-bitsset" (match AC.Gen.Program.bigintBitsSet (x : Int) with
+        | some o => showInts o | none => "panic") out r
       let r := specIf "bitsset-ascending" (pw (fun a b => decide (a < b)) o) r
       let r := specIf "bitsset-all-set" (o.all fun i => x.testBit i) r
       let r := specIf "bitsset-complete" ((o.foldl (fun acc i => acc + 2 ^ i) 0) == x) r
